@@ -498,4 +498,19 @@ theorem posToSpan_single (n : Nat) : posToSpan? [dec n ++ [':']] = some ⟨n, n,
     simp [parsePos?, splitColon_append _ _ (colon_not_mem_dec n), splitColon, parseNat_dec]
   simp [posToSpan?, h1]
 
+/-- Every `whole_span` occurrence (any text) has `start ≤ end`. -/
+theorem wholeSpanBindings_ordered {ls : List Str} {bs : List (Str × SpanP)}
+    (h : wholeSpanBindings? ls = some bs) : ∀ b ∈ bs, b.2.start ≤ b.2.stop := by
+  unfold wholeSpanBindings? at h
+  split at h
+  · simp only [Option.some.injEq] at h; subst h; intro b hb; cases hb
+  all_goals
+    simp only [Option.map_eq_some_iff] at h
+    obtain ⟨s, hp, hs⟩ := h
+    subst hs
+    intro b hb
+    simp only [List.mem_singleton] at hb
+    subst hb
+    exact posToSpan_ordered hp
+
 end Paroxy.Flat
